@@ -43,12 +43,14 @@ pub struct Work {
     pub depth: u8,
     /// mmap granularity knob (JIT): None = the real page size
     pub page: Option<usize>,
+    /// one of the bundled models instead of the generated shape
+    pub model: Option<&'static str>,
 }
 
 impl Work {
     pub fn describe(&self) -> String {
         format!(
-            "{:?} {:?} {}x{}x{} tiles={:?} pp={} z={} depth={} vars={:?} shape={}",
+            "{:?} {:?} {}x{}x{} tiles={:?} pp={} z={} depth={} vars={:?} model={:?} shape={}",
             self.kind,
             self.backend,
             self.w,
@@ -59,7 +61,12 @@ impl Work {
             self.z,
             self.depth,
             self.sg.var_values,
-            self.sg.dag.describe(self.sg.root)
+            self.model,
+            if self.model.is_some() {
+                "(bundled model)".to_string()
+            } else {
+                self.sg.dag.describe(self.sg.root)
+            }
         )
     }
 }
@@ -238,6 +245,20 @@ pub fn gen_work(ch: &mut Chooser, kind: Kind, tier: Tier) -> Work {
         pixel_perfect,
         z,
         depth,
+        model: if ch.odds("bundled_model", 1, 14) {
+            Some(match kind {
+                Kind::D2 => *ch.pick(
+                    "model_2d",
+                    &["hi.vm", "quarter.vm", "tanglecube.vm", "hi.vm"],
+                ),
+                _ => *ch.pick(
+                    "model_3d",
+                    &["tanglecube.vm", "bear.vm", "colonnade.vm", "tanglecube.vm"],
+                ),
+            })
+        } else {
+            None
+        },
         // regrowth is exercised heavily by E2; here only a share of the
         // workloads use it (every regrow is an mmap/munmap pair, which
         // serialises the 16 simulation threads on the process mmap lock)
@@ -257,6 +278,20 @@ pub struct Built {
 }
 
 pub fn build(work: &Work) -> Built {
+    if let Some(m) = work.model {
+        // the bundled models are part of the repository under test
+        let path = format!("/repo/models/{m}");
+        if let Ok(mut f) = std::fs::File::open(&path) {
+            if let Ok((ctx, root)) = Context::from_text(&mut f) {
+                return Built {
+                    ctx,
+                    root,
+                    vars: vec![],
+                    var_map: HashMap::new(),
+                };
+            }
+        }
+    }
     let mut ctx = Context::new();
     let vars: Vec<Var> = (0..work.sg.nvars).map(|_| Var::new()).collect();
     let nodes = work.sg.dag.lower(&mut ctx, &vars);
@@ -878,6 +913,9 @@ fn dual_gradient(
     j: usize,
     k: usize,
 ) -> Option<[f64; 3]> {
+    if work.model.is_some() {
+        return None;
+    }
     let p = [i as f64, j as f64, k as f64];
     let mut rows = [Dual::<3>::c(0.0); 4];
     for (r, row) in rows.iter_mut().enumerate() {
@@ -1014,11 +1052,75 @@ pub fn run_c09(st: &Shared, tier: Tier) -> RunReport {
                 _ => CancelPlan::Never,
             }
         };
-        let out = exec(st, &b, &work, pool, plan);
+        cancel_exec(st, &mut rep, &b, &work, pool, plan, &reference);
+    }
+
+    // (c) enumerated cancel placements: for small workloads every poll
+    // position of the sequential path and of one pool size is tried, so the
+    // "cancel during" dimension is covered exhaustively for that workload
+    let enumerate = {
+        let ch = &mut st.borrow_mut().ch;
+        let share = if tier == Tier::Thorough { 4 } else { 10 };
+        ch.choose("cancel_enumerate", share) == 0
+    };
+    if enumerate && ref_info.polls <= 40 && rep.violations.is_empty() {
+        rep.count("sched.cancel_enumerated_workloads", 1);
+        for j in 0..=ref_info.polls {
+            cancel_exec(
+                st,
+                &mut rep,
+                &b,
+                &work,
+                None,
+                CancelPlan::BeforePoll(j),
+                &reference,
+            );
+            rep.count("fault.cancel_enumerated_placements", 1);
+        }
+        let pool = Some(draw_pool(st));
+        for j in 0..=pool_info.polls.min(40) {
+            cancel_exec(
+                st,
+                &mut rep,
+                &b,
+                &work,
+                pool,
+                CancelPlan::BeforePoll(j),
+                &reference,
+            );
+            rep.count("fault.cancel_enumerated_placements", 1);
+        }
+        for j in 0..=pool_info.items.min(40) {
+            cancel_exec(
+                st,
+                &mut rep,
+                &b,
+                &work,
+                pool,
+                CancelPlan::BeforeItem(j),
+                &reference,
+            );
+            rep.count("fault.cancel_enumerated_placements", 1);
+        }
+    }
+    rep.finish(st)
+}
+
+/// One execution with a cancel plan, checked against the four cancel clauses
+fn cancel_exec(
+    st: &Shared,
+    rep: &mut RunReport,
+    b: &Built,
+    work: &Work,
+    pool: Option<usize>,
+    plan: CancelPlan,
+    reference: &Out,
+) {
+        let out = exec(st, b, work, pool, plan);
         let info = take_info(st);
         rep.evaluations += 1;
         rep.steps += info.items + info.polls;
-        account_schedule(&mut rep, &info, pool);
+        account_schedule(rep, &info, pool);
         if info.cancel_fired {
             rep.sigs.push(mix(info.sched, 0xCA));
         }
@@ -1062,20 +1164,18 @@ pub fn run_c09(st: &Shared, tier: Tier) -> RunReport {
                         ),
                     );
                 }
-                if o != reference {
+                if o != *reference {
                     rep.violate(
                         "C09",
                         "partial_result",
                         format!(
                             "{plan:?} pool {pool:?}: returned result differs from the complete one ({})",
-                            diff_summary(&o, &reference)
+                            diff_summary(&o, reference)
                         ),
                     );
                 }
             }
         }
-    }
-    rep.finish(st)
 }
 
 fn diff_summary(a: &Out, b: &Out) -> String {
